@@ -20,7 +20,7 @@ from ufl.differentiation import VariableDerivative
 
 from ufv import elements as E
 from ufv import num as N
-from ufv.core import proved, undecided, violated
+from ufv.core import crash_text, deliberate, proved, undecided, violated
 from ufv.den import GateauxLayer, VarLayer, World, den
 from ufv.drv import registry_of, rule_case
 from ufv.nodes import templates
@@ -121,6 +121,8 @@ def build(run):
             try:
                 r = apply_derivatives(apply_algebra_lowering(e))
             except (ValueError, NotImplementedError, RuntimeError) as ex:
+                if not deliberate(ex):
+                    return violated(f"crash instead of a result or a refusal: {crash_text(ex)}", reproduced=True, backend="exec")
                 return proved("refused", sample=f"{name}: refuses {ex}"[:200])
             except Exception as ex:  # noqa: BLE001
                 return violated(f"{name}: crashed {type(ex).__name__}: {ex}", reproduced=True, replay={"expr": str(e)})
